@@ -74,6 +74,9 @@ type SessionWindow struct {
 type sessionInfo struct {
 	session   *session
 	closeTime time.Time // session end + allowedLateness
+	// older is the previously fired session of the same key that was still inside
+	// its allowance when this one fired (newest first, closeTime decreasing).
+	older *sessionInfo
 }
 
 // session stores data and state for a session
@@ -430,6 +433,7 @@ func (sw *SessionWindow) collectExpiredSessions(currentTime time.Time) [][]types
 				sw.triggeredSessions[key] = &sessionInfo{
 					session:   s,
 					closeTime: closeTime,
+					older:     sw.triggeredSessions[key],
 				}
 			}
 		}
@@ -604,15 +608,17 @@ func (sw *SessionWindow) handleLateData(row types.Row) bool {
 	// Only the triggered session of the row's own key may absorb it: a session of
 	// another key covering the timestamp is unrelated.
 	key := extractSessionCompositeKey(row.Data, sw.config.GroupByKeys)
-	info, ok := sw.triggeredSessions[key]
-	if !ok || !info.session.slot.Contains(row.Timestamp) {
-		return false
+	for info := sw.triggeredSessions[key]; info != nil; info = info.older {
+		if !info.session.slot.Contains(row.Timestamp) {
+			continue
+		}
+		// Append the late event before re-emitting so the update includes it.
+		row.Slot = info.session.slot
+		info.session.data = append(info.session.data, row)
+		sw.triggerLateUpdateLocked(info.session)
+		return true
 	}
-	// Append the late event before re-emitting so the update includes it.
-	row.Slot = info.session.slot
-	info.session.data = append(info.session.data, row)
-	sw.triggerLateUpdateLocked(info.session)
-	return true
+	return false
 }
 
 // triggerLateUpdateLocked triggers a late update for a session (must be called with lock held)
@@ -646,8 +652,16 @@ func (sw *SessionWindow) triggerLateUpdateLocked(s *session) {
 func (sw *SessionWindow) closeExpiredSessions(watermarkTime time.Time) {
 	for key, info := range sw.triggeredSessions {
 		if !watermarkTime.Before(info.closeTime) {
-			// Session has expired, remove it
+			// Newest fired session of the key has expired, so have all older ones
 			delete(sw.triggeredSessions, key)
+			continue
+		}
+		// Older sessions of the key expire earlier: cut the chain at the first expired one
+		for cur := info; cur.older != nil; cur = cur.older {
+			if !watermarkTime.Before(cur.older.closeTime) {
+				cur.older = nil
+				break
+			}
 		}
 	}
 }
